@@ -15,11 +15,37 @@ from harness.props import c01
 
 THEOREM_FILE = "Properties/C08.v"
 COQCHK = ["Properties.C08"]
+COQ_NEEDS = ["Delta.DeltaVerifyHyp"]
 RULE = ("pairs as in C01 (ordered mode; random nested values with 1-3 edits, planted atom-list edits, independent pairs) x zip x threshold; "
         "for each delta every values_changed / type_changes path is corrupted once with a value that differs (Python !=) from the recorded "
         "old value; back-and-forth sequences of length <= 6. Non-trivial = non-empty delta; distinct by (t1,t2,config[,corruption]).")
 TRUSTED = c01.TRUSTED
 ASSUMPTIONS = c01.ASSUMPTIONS
+
+HYP_HDR = DC.HDR[:-1] + " Delta.DeltaVerify Delta.DeltaVerifyIndep Delta.DeltaVerifyHyp."
+
+
+def keys_nonneg(v):
+    """mirror of DeltaVerifyIndep.keys_nonneg: no negative int among the dict keys"""
+    if isinstance(v, (list, tuple)):
+        return all(keys_nonneg(x) for x in v)
+    if isinstance(v, dict):
+        return all(not (type(k) is int and k < 0) and keys_nonneg(x) for k, x in v.items())
+    return True
+
+
+def hyp_expr8(t1, t2, zip_, thr, conv_tbl, kn):
+    """Coq expression (sx) of the observed guards of the C08 theorems on the bidirectional delta of the diff:
+    indep_verified d (claimed by C08_indep_guard_of_diff when keys_nonneg t2), ops_ok 0 on every difflib opcode
+    list (ops_disjoint), sym_okb on every entry of the result tree (sym_ok incl. moved_identical), keys_nonneg t2"""
+    ops = D.coq_ops_table(D.opcode_table(t1, t2))
+    return ("(let r := run_diff hatom_deep (tbl_udiff %s) (tbl_ops %s) no_paths no_paths %s %s %s in "
+            "let d := to_delta (tbl_conv %s) true false (tbl_ops %s) %s %s (fst r) (snd r) in "
+            "sx_c08hyp %s (ops_table_disjointb %s) (forallb sym_okb (fst r)) (keys_nonneg %s))") % (
+        D.coq_udiff_table(D.udiff_table(t1, t2)), ops, D.coq_cfg(zip_, thr, True), V.to_coq(t1), V.to_coq(t2),
+        conv_tbl, ops, V.to_coq(t1), V.to_coq(t2),
+        "(indep_verified d)" if kn else "true", ops, V.to_coq(t2))
+
 
 def holds8(t1, t2, cfg, always=False):
     """the inversion clause of C08 on one input"""
@@ -74,7 +100,7 @@ def corrupt_value(rng, old):
     return "zz9"
 
 
-def one_pair(ctx, t1, t2, cases, corr=True):
+def one_pair(ctx, t1, t2, cases, corr=True, hyp_cases=None):
     from deepdiff import DeepDiff, Delta
     from deepdiff.delta import DeltaError
     rng = ctx.rng
@@ -180,6 +206,17 @@ def one_pair(ctx, t1, t2, cases, corr=True):
                           [payload, [DC.canon_unordered(fwd), False]], dict(tag, op="add")))
             cases.append((DC.model_expr(t1, t2, zip_, thr, True, False, t2, conv, rrem, radd, want="sub"),
                           [payload, [DC.canon_unordered(back), False]], dict(tag, op="sub")))
+            if hyp_cases is not None:
+                kn = keys_nonneg(t2)
+                ctx.count("hyp:keys_nonneg_true" if kn else "hyp:keys_nonneg_false")
+                ctx.count("hyp:cases")
+                if D.opcode_table(t1, t2):
+                    ctx.count("hyp:cases_with_opcode_tables")
+                if d.diff.get("iterable_item_moved"):
+                    ctx.count("hyp:cases_with_moved_items")
+                # expected: every guard holds on in-guard inputs (indep_verified is claimed only when keys_nonneg t2)
+                hyp_cases.append((hyp_expr8(t1, t2, zip_, thr, conv, kn), [True, True, True, kn],
+                                  dict(tag, hypotheses="indep_verified/ops_disjoint/sym_ok/keys_nonneg")))
             for base, res, n in corrupt_cases[:2]:
                 if not DC.in_universe(base) or not DC.in_universe(res):
                     continue
@@ -199,12 +236,14 @@ def get_safe(base, level):
 
 def run(ctx):
     cases = []
+    hyp_cases = []
     pairs = c01.gen_random(ctx, 2000 if ctx.thorough else 350)
     for t1, t2 in pairs:
-        one_pair(ctx, t1, t2, cases)
+        one_pair(ctx, t1, t2, cases, hyp_cases=hyp_cases)
     for c in cases[:3]:
         ctx.sample(c[2])
     ctx.coq_cases("c08", DC.HDR, cases, shard=120, label="payload+add+sub+corrupted")
+    ctx.coq_cases("c08hyp", HYP_HDR, hyp_cases, shard=160, label="theorem-guards")
 
 
 def replay(ctx, data):
